@@ -1515,7 +1515,7 @@ def run(ctx: Context):
     with ctx.rule("C09.14", "R5", "the old start segment, old end segment and old block hash tree fetched by the "
                   "servermap update reach TransformingUploadable(start, end) and Publish.update(blockhashes) in their "
                   "own roles: update_range -> get_block_and_salt order -> update_data tuple -> decode(segment number) "
-                  "-> gatherResults order -> constructor arguments", expected=8) as r:
+                  "-> gatherResults order -> constructor arguments", expected=11) as r:
         _need("the evaluated update ranges of C09.9", upd_obs)
         # (a) ServermapUpdater.__init__: which attribute holds update_range[0] / [1]
         smi = idx.func(SMU + ".__init__")
